@@ -13,6 +13,7 @@ from sfv.rt import cwldiff as C
 from sfv.rt import cwlgen_tool as G
 from sfv.rt.hexs import hx
 from sfv.rt.par import pmap
+from sfv.translate import cwlcmdtpl
 
 PATH_RE = re.compile(r"/[^ ,:=]*/(in_[A-Za-z0-9_]+\.txt|stdin_src\.txt)")
 
@@ -110,7 +111,7 @@ def corpus_tools(d: str):
         out.append({"name": name, "dir": dd, "key": key, "collect": list(collect), "features": list(feats), "shell": False,
                     "tool": tool, "job": job, "env": tool.get("requirements", {}).get("EnvVarRequirement", {}).get("envDef", {})})
 
-    mk("env-shell-active", {"requirements": {"EnvVarRequirement": {"envDef": {"SFV_A": "$HOME `id`", "SFV_B": "plain value"}}}}, {},
+    mk("env-shell-active", {"requirements": {"EnvVarRequirement": {"envDef": {"SFVT_A": "$HOME `id`", "SFVT_B": "plain value"}}}}, {},
        "env:shell-active-value")
     mk("array-unquoted", {"inputs": {"a": {"type": "string[]", "inputBinding": {"prefix": "-x"}}}}, {"a": ["two words", "$HOME", "it's"]},
        "argv:array-input-not-shell-quoted")
@@ -125,7 +126,8 @@ def corpus_tools(d: str):
                                      for i in range(len(G.STRINGS))}}, {f"s{i}": s for i, s in enumerate(G.STRINGS)}, None)
     mk("position-ties", {"inputs": {"b": {"type": "string", "inputBinding": {"position": 1}}, "a": {"type": "string", "inputBinding": {"position": 1}},
                                     "c": {"type": "boolean", "inputBinding": {"prefix": "-c"}}},
-                         "arguments": ["first", {"valueFrom": "lit", "position": 1}, {"valueFrom": "neg", "position": -1, "prefix": "-N"}]},
+                         "arguments": ["first", "second", {"valueFrom": "lit", "position": 1}, {"valueFrom": "lit2", "position": 1},
+                                       {"valueFrom": "neg", "position": -1, "prefix": "-N"}]},
        {"a": "A", "b": "B", "c": True}, None)
     return out
 
@@ -185,7 +187,7 @@ class C30(Property):
     lean_targets = ["SFV.Props.C30"]
     props_files = ["SFV/Props/C30.lean"]
     drivers = ["Drivers/C30.lean"]
-    translators = []
+    translators = [cwlcmdtpl.generate]
     quick_budget_s = 1500
     thorough_budget_s = 7200
     min_nontrivial = 20
@@ -194,10 +196,12 @@ class C30(Property):
             "Lean parse of export K=\"v\" vs what /bin/sh really exports; (iii) whole-runner differential: random CommandLineTools (1..6 bound "
             "inputs of type string/int/float/boolean/File/enum/optional/array/record with position, prefix, separate, itemSeparator, "
             "item bindings, valueFrom; arguments; ShellCommandRequirement with shellQuote:false; EnvVarRequirement; stdin/stdout/stderr) whose "
-            "baseCommand dumps argv / SFV_* environment / stdin as JSON, run by StreamFlow and by cwltool in fresh processes with private "
+            "baseCommand dumps argv / SFVT_* environment / stdin as JSON, run by StreamFlow and by cwltool in fresh processes with private "
             "HOME/TMPDIR/database; compared with each other and, inside the modelled fragment, with the Lean binding model and spec; a corpus "
             "holds one tool per known deviation plus all 37 tricky strings as scalar inputs. Non-trivial = distinct tool + job.")
     trusted_base = [
+        "translator harness/sfv/translate/cwlcmdtpl.py (ast patterns: the `export K=…` f-string of create_command, the sort key of "
+        "_get_executable_command -> SFV/Gen/CwlCmdTpl.lean)",
         "cwltool 3.2 as the reference oracle",
         "modelled, not verified: /bin/sh word splitting restricted to words separated by single spaces (parseCmd refuses every character "
         "the shell would interpret); Python shlex.quote (compared with the Lean shlexQuote on every run)",
